@@ -216,4 +216,61 @@ Section Sigma.
         rewrite Hm. cbn. destruct y; reflexivity.
       + cbn. apply IH. lia.
   Qed.
+
+  (* ---- cross products of partitions (apply_same_vtree) -------------------------------------------- *)
+  Definition gpair := ((bool * bool) * (bool * bool))%type.
+  Definition cntP (dG : list gpair) : nat := length (filter (fun g => fst (fst g) && fst (snd g)) dG).
+  Definition evP (o : bop) (dG : list gpair) : bool :=
+    existsb (fun g => fst (fst g) && fst (snd g) && bop_sem o (snd (fst g)) (snd (snd g))) dG.
+  Definition anyp (bs : bvals) : bool := existsb (fun b => fst b) bs.
+
+  Lemma cntP_app : forall a b, cntP (a ++ b) = (cntP a + cntP b)%nat.
+  Proof. intros. unfold cntP. now rewrite filter_app, app_length. Qed.
+  Lemma evP_app : forall o a b, evP o (a ++ b) = evP o a || evP o b.
+  Proof. intros. unfold evP. now rewrite existsb_app. Qed.
+
+  Lemma anyp_pos : forall bs, (0 < cnt bs)%nat -> anyp bs = true.
+  Proof.
+    induction bs as [|[x y] bs IH]; intros H; [cbn in H; lia|]. rewrite cnt_cons in H.
+    cbn. destruct x; [reflexivity|]. apply IH. lia.
+  Qed.
+
+  Lemma cntP_row : forall a B, cntP (map (fun y => (a, y)) B) = if fst a then cnt B else 0%nat.
+  Proof.
+    intros [xa ya] B. induction B as [|[xb yb] B IH]; [destruct xa; reflexivity|].
+    cbn [map]. unfold cntP in *. cbn [filter fst snd]. rewrite cnt_cons.
+    destruct xa, xb; cbn [andb length]; rewrite IH; reflexivity.
+  Qed.
+  Lemma evP_row : forall o a B,
+    evP o (map (fun y => (a, y)) B) =
+    fst a && match o with And => snd a && evalE B | Or => (snd a && anyp B) || evalE B end.
+  Proof.
+    intros o [xa ya] B. induction B as [|[xb yb] B IH].
+    - cbn. destruct o, xa, ya; reflexivity.
+    - cbn [map]. unfold evP, evalE, anyp in *. cbn [existsb fst snd]. rewrite IH.
+      destruct o, xa, ya, xb, yb; cbn; try reflexivity;
+        repeat (rewrite ?orb_true_r, ?orb_false_r, ?andb_true_r, ?andb_false_r; cbn); try reflexivity;
+        destruct (existsb (fun b : bool * bool => fst b && snd b) B), (existsb (fun b : bool * bool => fst b) B); reflexivity.
+  Qed.
+
+  Lemma cntP_prod : forall A B, cntP (list_prod A B) = (cnt A * cnt B)%nat.
+  Proof.
+    induction A as [|[xa ya] A IH]; intros B; [reflexivity|].
+    cbn [list_prod]. rewrite cntP_app, cntP_row, IH, cnt_cons. cbn [fst]. destruct xa; lia.
+  Qed.
+  Lemma evP_prod : forall o A B, part A -> part B ->
+    evP o (list_prod A B) = bop_sem o (evalE A) (evalE B).
+  Proof.
+    intros o A B HA HB.
+    assert (HaB : anyp B = true) by (apply anyp_pos; unfold part in HB; lia).
+    assert (G : evP o (list_prod A B) =
+                match o with And => evalE A && evalE B | Or => evalE A || (anyp A && evalE B) end).
+    { clear HA. induction A as [|[xa ya] A IH]; [destruct o; reflexivity|].
+      cbn [list_prod]. rewrite evP_app, evP_row, IH, HaB. unfold evalE, anyp. cbn [existsb fst snd].
+      destruct o, xa, ya; cbn; try reflexivity;
+        repeat (rewrite ?orb_true_r, ?orb_false_r, ?andb_true_r, ?andb_false_r; cbn); try reflexivity;
+        destruct (existsb (fun b : bool * bool => fst b && snd b) B), (existsb (fun b : bool * bool => fst b && snd b) A),
+                 (existsb (fun b : bool * bool => fst b) A); reflexivity. }
+    rewrite G. destruct o; [reflexivity|]. rewrite anyp_pos by (unfold part in HA; lia). reflexivity.
+  Qed.
 End Sigma.
